@@ -37,6 +37,20 @@ def swap(lst, i, j):
     return l
 
 
+CLUSTER = {
+    "binary": {
+        "clfirst": [-0.5, -0.25, 0.5, 0.75, 0.75, -0.5, 2.75, 2.0, 1.75, 1.75, 2.0, 1.5],
+        "clsecond": [-1.0, 0.0, -2.5, -2.5, 0.0, 1.5, 2.0, 0.5, 2.5, 3.0, 0.5, 3.5],
+        "clshadow": [0.75, -1.5, -1.25, 2.0, 2.0, -2.25, 3.5, 2.75, 1.75, 0.5, 2.75, 1.5],
+    },
+    "multiclass": {
+        "clfirst": [-0.25, 0.5, 0.25, 0.25, 2.0, 2.75, 1.5, 1.75, 4.25, 3.5, 3.5, 4.5],
+        "clsecond": [-1.0, -1.5, 0.0, 0.0, 4.5, 0.5, 4.5, 4.5, 1.5, 4.0, 3.5, 2.5],
+        "clshadow": [-1.5, 0.5, 1.0, 0.25, 0.75, 4.0, 0.25, 0.5, 3.0, 5.25, 2.75, 5.25],
+    },
+}
+
+
 def quant_alphabet(kind):
     y = [float(v) for v in target(kind)]
     nan = float("nan")
@@ -57,6 +71,9 @@ def quant_alphabet(kind):
         # fence once the column is negated)
         "fence": [1.0, 1.0, 1.0, 2.0, 1.0, 2.0, 2.0, 3.0, 3.0, 3.0, 3.0, 6.0],
         "fence2": [3.0, 3.0, 2.0, 3.0, 3.0, 2.0, 2.0, 1.0, 1.0, 1.0, 1.0, -2.0],
+        # a correlated cluster with a third feature ranked in between (found once by search, classification targets):
+        # H(first) > H(second) > H(shadow), |r|(first, shadow) ~ 0.8, |r|(first, second) ~ 0.5, |r|(second, shadow) < 0.3
+        **CLUSTER.get(kind, {}),
     }
 
 
@@ -68,7 +85,17 @@ def qual_alphabet(kind):
         cls = list(y)
     names = ["a", "b", "c"]
     other = ["z", "y", "x"]
+    k = len(set(cls))
+
+    def err(rows):  # the class indicator with the listed rows moved to the next class
+        return [names[(c + 1) % k] if i in rows else names[c] for i, c in enumerate(cls)]
+
     return {
+        # cluster: qe0 > qe56 > qe012 by association with the target; qe012 is a noisy copy of qe0, qe56 is nearly
+        # unrelated to both
+        "qe0": err({0}),
+        "qe56": err({5, 6}),
+        "qe012": err({0, 1, 2}),
         "qcopy": [names[c] for c in cls],
         "qrename": [other[c] for c in cls],
         "qcoarse": [names[min(c, 1)] for c in cls] if kind != "binary" else [names[c] for c in swap(cls, 5, 6)],
